@@ -691,7 +691,9 @@ func (m *Message) GetDialog() (string, error) {
 	if err != nil {
 		return "", err
 	}
-	if from_addr_s < to_addr_s {
+	// order the two sides by address and then by tag, so that both directions of the dialog get
+	// the same id even if both sides use the same address
+	if from_addr_s < to_addr_s || (from_addr_s == to_addr_s && from_tag < to_tag) {
 		return NewDialog(callId,
 			fmt.Sprintf("%s-%s", from_tag, from_addr_s),
 			fmt.Sprintf("%s-%s", to_tag, to_addr_s)).String(), nil
